@@ -2,6 +2,7 @@ package checks
 
 import (
 	"crypto/x509"
+	"encoding/asn1"
 	"encoding/json"
 	"fmt"
 	"math/big"
@@ -240,6 +241,8 @@ type hubWorld struct {
 	sawRej       bool // some fetched document was rejected earlier in this walk
 	poisoned     bool // a call never returned: the validator holds locks forever, do not touch it again
 	chainVariant string
+	nameVariant  string // how the issuers are named: "plain" | "order" | "dc" | "twoou" (see newHubWorld)
+	cdpVariant   string // how c1 names its distribution-point set: "single" | "ldap-first" | "mirror" (see newHubWorld)
 	ocspHits     int
 	pathD, pathU string
 }
@@ -265,21 +268,43 @@ func newHubWorld(cfg HubCfg, shape Shape, seed int64) (*hubWorld, error) {
 	if seed%3 == 0 {
 		alg = "rsa"
 	}
+	// How the issuers are NAMED. n1 (A and its sibling S) and n2 (B) are different names in every variant; in three of four
+	// worlds they differ only in the ORDER of the attributes, in attribute types crypto/x509's pkix.Name does not know
+	// (domainComponent, emailAddress), or in two single-valued OU RDNs against one multi-valued RDN: a name handling that goes
+	// through a lossy normal form would confuse them or fail to find A's own entries.
+	h.nameVariant = []string{"plain", "order", "dc", "twoou"}[int(seed/19)%4]
+	a := func(oid asn1.ObjectIdentifier, v string) []pki.Attr { return []pki.Attr{{OID: oid, Value: v}} }
+	var rawA, rawB []byte
+	switch h.nameVariant {
+	case "order":
+		rawA = pki.RawName(a(pki.OidCN, "Hub CA n1"), a(pki.OidOU, "pki"), a(pki.OidO, "verif"), a(pki.OidC, "DE"))
+		rawB = pki.RawName(a(pki.OidC, "DE"), a(pki.OidO, "verif"), a(pki.OidOU, "pki"), a(pki.OidCN, "Hub CA n1"))
+	case "dc":
+		rawA = pki.RawName(a(pki.OidDC, "example"), a(pki.OidDC, "verif"), a(pki.OidO, "verif"), a(pki.OidCN, "Hub CA n1"), a(pki.OidEmail, "ca@verif.example"))
+		rawB = pki.RawName(a(pki.OidO, "verif"), a(pki.OidCN, "Hub CA n1"))
+	case "twoou":
+		rawA = pki.RawName(a(pki.OidO, "verif"), a(pki.OidOU, "east"), a(pki.OidOU, "west"), a(pki.OidCN, "Hub CA n1"))
+		rawB = pki.RawName(a(pki.OidO, "verif"), []pki.Attr{{OID: pki.OidOU, Value: "east"}, {OID: pki.OidOU, Value: "west"}}, a(pki.OidCN, "Hub CA n1"))
+	}
+	nameB := "Hub CA n2"
+	if rawB != nil {
+		nameB = "Hub CA n1"
+	}
 	var rootA *pki.CA
 	h.chainVariant = []string{"flat", "inter", "two"}[int(seed/7)%3]
 	if h.chainVariant == "inter" {
 		// the issuer of the leaves is an intermediate; the chain is leaf, intermediate, root
 		rootA = pki.NewCA(pki.CAOpts{Name: "Hub Root above n1", Serial: 100})
-		h.cas["A"] = pki.NewCA(pki.CAOpts{Name: "Hub CA n1", Alg: alg, RSAIndex: 0, Serial: 101, Parent: rootA})
+		h.cas["A"] = pki.NewCA(pki.CAOpts{Name: "Hub CA n1", Alg: alg, RSAIndex: 0, Serial: 101, Parent: rootA, RawName: rawA})
 	} else {
-		h.cas["A"] = pki.NewCA(pki.CAOpts{Name: "Hub CA n1", Alg: alg, RSAIndex: 0, Serial: 101})
+		h.cas["A"] = pki.NewCA(pki.CAOpts{Name: "Hub CA n1", Alg: alg, RSAIndex: 0, Serial: 101, RawName: rawA})
 	}
-	sOpts := pki.CAOpts{Name: "Hub CA n1", Alg: alg, RSAIndex: 1, Serial: 102}
+	sOpts := pki.CAOpts{Name: "Hub CA n1", Alg: alg, RSAIndex: 1, Serial: 102, RawName: rawA}
 	if seed%2 == 0 {
 		sOpts.SKI = h.cas["A"].Cert.SubjectKeyId // sibling that also claims A's key identifier
 	}
 	h.cas["S"] = pki.NewCA(sOpts)
-	h.cas["B"] = pki.NewCA(pki.CAOpts{Name: "Hub CA n2", Serial: 103})
+	h.cas["B"] = pki.NewCA(pki.CAOpts{Name: nameB, Serial: 103, RawName: rawB})
 	var ocspURLs []string
 	switch cfg.Ocsp {
 	case "good", "revoked":
@@ -287,11 +312,30 @@ func newHubWorld(cfg HubCfg, shape Shape, seed int64) (*hubWorld, error) {
 	case "down":
 		ocspURLs = []string{origin.ClosedPortURL() + pathOCSP}
 	}
-	h.leaves["c1"] = h.cas["A"].Leaf(pki.LeafOpts{CN: "c1", Serial: shape.Serial(1), CDP: []string{h.org.URL + h.pathD}, OCSP: ocspURLs, NoKeyUsage: seed%2 == 1})
+	// The model's location D is c1's distribution-point SET. It is one http URL, or that URL behind an ldap URL (unsupported
+	// scheme, to be skipped), or behind a mirror that refuses every connection (to be given up for the next one): the set is
+	// usable exactly when its http URL is, so the model does not change.
+	h.cdpVariant = []string{"single", "ldap-first", "single", "mirror"}[int(seed/17)%4]
+	cdp := []string{h.org.URL + h.pathD}
+	switch h.cdpVariant {
+	case "ldap-first":
+		cdp = []string{"ldap://directory.example/cn=Hub%20CA%20n1,o=verif?certificateRevocationList;binary", cdp[0]}
+	case "mirror":
+		cdp = []string{origin.ClosedPortURL() + "/mirror/hub-ca-n1.crl", cdp[0]}
+	}
+	h.leaves["c1"] = h.cas["A"].Leaf(pki.LeafOpts{CN: "c1", Serial: shape.Serial(1), CDP: cdp, OCSP: ocspURLs, NoKeyUsage: seed%2 == 1})
 	// "E": the end-entity signing CRLs with its own key (issuer name = its subject, AKI = its key identifier)
 	h.cas["E"] = &pki.CA{Name: "c1", Key: h.leaves["c1"].Key, Cert: h.leaves["c1"].Cert, Alg: "ecdsa"}
 	h.leaves["c2"] = h.cas["A"].Leaf(pki.LeafOpts{CN: "c2", Serial: shape.Serial(2)})
-	h.leaves["c3"] = h.cas["B"].Leaf(pki.LeafOpts{CN: "c3", Serial: shape.Serial(1), CDP: []string{"ldap://directory.example/cn=crl,o=verif?certificateRevocationList"}})
+	// c3 names a distribution-point set without any usable member (the model's class "ldap"): an unsupported scheme, an http URL
+	// that does not parse (crypto/x509 does not validate CDP URIs), or both
+	unusable := [][]string{
+		{"ldap://directory.example/cn=crl,o=verif?certificateRevocationList"},
+		{h.org.URL + "/crl/Example%20CA%.crl"},
+		{"http://127.0.0.1:80a/ca.crl", "ldap://directory.example/cn=crl,o=verif?certificateRevocationList"},
+		{"http://[::1/ca.crl"},
+	}[int(seed/23)%4]
+	h.leaves["c3"] = h.cas["B"].Leaf(pki.LeafOpts{CN: "c3", Serial: shape.Serial(1), CDP: unusable})
 	h.chains["c1"] = pki.Chain(h.leaves["c1"].Cert, h.cas["A"])
 	h.chains["c2"] = pki.Chain(h.leaves["c2"].Cert, h.cas["A"])
 	h.chains["c3"] = pki.Chain(h.leaves["c3"].Cert, h.cas["B"])
@@ -434,6 +478,14 @@ func (h *hubWorld) publish(l string, d hubDoc) {
 		spec := CRLSpec{Signer: h.cas[d.Signer], Listed: listed, Avoid: avoid, CritExt: d.Q == "critext", Number: h.number}
 		if d.Signer == "B" {
 			spec.ForeignIssuerRaw = h.cas["A"].Cert.RawSubject
+		}
+		// an unusual authorityKeyIdentifier only where the model does not expect the signer to be resolved through it: signature
+		// mode none (nothing is resolved), or verify_log with a signer that is not at hand anyway
+		spec.OddAKI = h.cfg.Sig == "none" || (h.cfg.Sig == "verify_log" && d.Signer != "A")
+		if d.Signer != "A" {
+			// whoever else signs picks its numbers freely: far ahead of the issuer's own sequence, so that nothing which such a list
+			// leaves behind (accepted or rejected) can make the issuer's next list look old
+			spec.Number += 100000
 		}
 		body = BuildCRL(spec, sh)
 	}
@@ -660,7 +712,7 @@ func runHubWalk(c *vk.Ctx, cfg HubCfg, walk []*graph.Edge, shape Shape, seed int
 		if drift := hubDrift(cfg, name, obs); drift != "" {
 			c.Drift(drift)
 			if os.Getenv("VERIF_DEBUG") != "" {
-				b, _ := json.Marshal(map[string]any{"cfg": cfg, "shape": shape, "chain": h.chainVariant, "steps": hist})
+				b, _ := json.Marshal(map[string]any{"cfg": cfg, "shape": shape, "chain": h.chainVariant, "cdp": h.cdpVariant, "names": h.nameVariant, "steps": hist})
 				fmt.Fprintf(os.Stderr, "HUBDRIFT %s %s\n", drift, b)
 			}
 			if divergencePreds[c.ID] && !h.poisoned && (strings.HasPrefix(drift, "loaded-") || strings.HasPrefix(drift, "fetch-")) {
